@@ -19,7 +19,7 @@ ID = "C14"
 META = {
     "rule": "base files covering all 10 vocabulary tags + a registered custom tag; (perm) every legal order of the <=7 lines of each base file (offset parameter before the "
     "edge that uses it); (junk) every placement of 0, 1 and 2 lines from {blank, spaces only, #comment, free text, near-miss tags VERTEX_SE2X / EDGE_SE2_XYZ / VERTEX_SE3 / "
-    "EDGE_SE3:QUATX, leading-space tag, comment / note lines that quote a complete PARAMS / VERTEX / EDGE line after their first character} at every position; (fmt) every numeric field of every line x 10 number formats float() accepts; (sep) separators x line endings x the "
+    "EDGE_SE3:QUATX, leading-space tag, comment / note lines that quote a complete PARAMS / VERTEX / EDGE line after their first character} at every position; (fmt) every numeric field of every line x 12 number formats float() accepts (incl. digit-group underscores); (sparse) every zero / non-zero pattern of the upper-triangular information entries of each edge tag (6x6: <= 2 non-zeros); (sep) separators x line endings x the "
     "six loader entry points; (custom2) two registered custom edge types: every order of a 6-line file x both registration orders; (custom3) a registered custom type that resolves its offset through the file's PARAMS_SE3OFFSET lines: every legal order of a 7-line file. Oracle: vf/ref/g2o.py parse of the same text; one object per vocabulary line in file order with exactly float(token), symmetric information, offsets "
     "through the parameter id; warnings of logger graphslam.graph counted. non-trivial = file differs from the canonical rendering of its base (order, junk, format or separators)",
     "assumptions": [
@@ -27,7 +27,7 @@ META = {
         "warnings: at least one per unsupported non-blank line and at most one more per blank line (the documentation is silent on blank lines)",
         "a custom edge type's own from_g2o is harness code; what is checked is its dispatch (one object per line, in order, unaffected by other lines)",
     ],
-    "required_classes": ["duplicate_line", "huge_ids", "two_custom_types", "perm", "junk1", "junk2", "fmt", "sep", "loader", "crlf", "near_miss_tag", "embedded_tag", "custom_type_with_parameters", "custom_tag", "param_resolved"],
+    "required_classes": ["duplicate_line", "huge_ids", "two_custom_types", "perm", "junk1", "junk2", "fmt", "sep", "loader", "crlf", "near_miss_tag", "information_with_zeros", "embedded_tag", "custom_type_with_parameters", "custom_tag", "param_resolved"],
     "bounds": {"quick": "all 5040 + 2520 line orders; junk <= 2 insertions into 2 base files; 10 formats x every field; 3 separators x 3 endings x 6 loaders", "thorough": "same + junk pairs on every rotation of the base files + 3 insertions of the near-miss tags"},
 }
 
@@ -158,8 +158,9 @@ JUNK = [
     ("embedded", "#EDGE_SE2_XY 1 2 0.1 0.1 1 0 1"),
     ("dup_line", None),  # an exact duplicate of the first EDGE line of the base file: two lines, two objects
 ]
+SPARSE_TAGS = ("EDGE_SE2", "EDGE_SE2_XY", "EDGE_SE3_TRACKXYZ", "EDGE_SE3:QUAT")
 BIG_IDS = ["9007199254740993", "-9007199254740993", "9223372036854775807", "4611686018427387909", "+17", "0042"]
-FORMATS = ["1", "1.0", "+1.0", "1e0", "1E+0", ".5", "5.", "-0.0", "0.12345678901234567", "1e-300"]
+FORMATS = ["1", "1.0", "+1.0", "1e0", "1E+0", ".5", "5.", "-0.0", "0.12345678901234567", "1e-300", "1_0.5", "1_0e-1"]
 
 
 def legal(order, base):
@@ -193,6 +194,8 @@ def chunks(tier, seed):
     out.append(("custom2", "b1", 0))
     for first in range(7):
         out.append(("custom3", "b2", first))
+    for k, tag in enumerate(SPARSE_TAGS):
+        out.append(("sparse", "b1" if tag.startswith("EDGE_SE2") else "b2", k))
     out.append(("bigid", "b1", 0))
     out.append(("bigid", "b2", 0))
     return out
@@ -255,6 +258,17 @@ def run_chunk(chunk, tier, seed):
             for order in itertools.permutations(range(len(CUSTOM_LINES))):
                 for reg in ("AB", "BA"):
                     _do(acc, {"t": "custom2", "base": b, "order": list(order), "reg": reg}, ctx)
+        elif typ == "sparse":
+            # information with zeros: every zero / non-zero pattern of the upper triangle (2x2, 3x3); for 6x6 every pattern with <= 2 non-zeros
+            tag = SPARSE_TAGS[k]
+            n = {"EDGE_SE2": 3, "EDGE_SE2_XY": 2, "EDGE_SE3_TRACKXYZ": 3, "EDGE_SE3:QUAT": 6}[tag]
+            m = n * (n + 1) // 2
+            if n <= 3:
+                pats = list(itertools.product((0, 1), repeat=m))
+            else:
+                pats = [tuple(1 if i in c else 0 for i in range(m)) for r in (0, 1, 2) for c in itertools.combinations(range(m), r)]
+            for pat in pats:
+                _do(acc, {"t": "sparse", "base": b, "tag": tag, "pat": list(pat)}, ctx)
         elif typ == "custom3":
             # a registered custom type that needs the file's offset parameters: every legal order of a 7-line file
             c3 = custom3_lines()
@@ -351,6 +365,13 @@ def text_of(case):
     elif t == "custom2":
         lines = [list(CUSTOM_LINES[k]) for k in case["order"]]
         classes.append("two_custom_types")
+    elif t == "sparse":
+        for ln in lines:
+            if ln[0] == case["tag"]:
+                m = len(case["pat"])
+                vals = [("%g" % (1.5 + 0.25 * i)) if on else "0" for i, on in enumerate(case["pat"])]
+                ln[len(ln) - m :] = vals
+        classes.append("information_with_zeros")
     elif t == "custom3":
         c3 = custom3_lines()
         lines = [list(c3[k]) for k in case["order"]]
